@@ -142,7 +142,7 @@ def exhaustive_cases(depth):
 def random_case(rng, domain=True):
     """(instrs, nphys); domain: labels 0..n-1, neighbouring pairs; otherwise scattered labels and / or distant pairs (on labels 0..n-1
     with n >= 3 a distant pair is what Circuit.CNOT / ECR assert against)"""
-    n = int(rng.integers(1, 5))
+    n = int(rng.integers(1, 6))     # up to 5 qubits: beyond the n <= 4 instances of the traced layered branch (circuit_trace.py)
     distant = (not domain) and rng.random() < 0.4
     if domain:
         labels = list(range(n)); nphys = int(rng.integers(n, n + 3))
